@@ -24,6 +24,9 @@ pub struct TwoWorld {
     pub kind: Hidden,
     pub observer_joins: bool,
     pub full: bool,
+    /// the secret channel is declared (+s, with a topic) in the configuration: it exists
+    /// while empty; the world without the hidden part has no such declaration
+    pub pre: bool,
 }
 
 const OBS: usize = 2;
@@ -66,6 +69,10 @@ impl TwoWorld {
                 }
             }
         }
+        if self.pre {
+            s.cfg.channels = vec![crate::scn::CfgChan { name: "#s".into(), topic: Some("configured and hidden".into()), flags: "s".into(), voices: vec!["m2".into()], ..Default::default() }];
+            s.cfg.label = "preconfigured-secret-#s".into();
+        }
         if self.observer_joins {
             s.alphabet_for.push((OBS, "JOIN #p"));
             // a former member is an outsider again, however it left
@@ -95,7 +102,11 @@ impl TwoWorld {
     /// The world with the hidden part deleted.
     fn shadow(&self, hist: &[Act]) -> Result<World, crate::world::MachineryError> {
         let inner = self.inner();
-        let mut w = World::new(inner.cfg.main_config(), 3);
+        let mut cfg = inner.cfg.clone();
+        if self.pre {
+            cfg.channels.clear();
+        }
+        let mut w = World::new(cfg.main_config(), 3);
         for p in &inner.parts {
             if self.kind == Hidden::InvisibleUser && p.slot == 0 {
                 continue;
@@ -138,7 +149,7 @@ impl TwoWorld {
 
 impl Scenario for TwoWorld {
     fn name(&self) -> String {
-        format!("c12-{:?}{}", self.kind, if self.observer_joins { "-observer-in-p" } else { "" })
+        format!("c12-{:?}{}{}", self.kind, if self.pre { "-preconfigured" } else { "" }, if self.observer_joins { "-observer-in-p" } else { "" })
     }
     fn slots(&self) -> usize {
         3
@@ -173,6 +184,15 @@ impl Scenario for TwoWorld {
         // does the hiding condition of the statement hold in this state?
         match self.kind {
             Hidden::SecretChannel => {
+                // declared secret in the configuration and never made public by anybody
+                if self.pre && !v.hist.iter().any(|a| matches!(a, Act::Send(_, l) if l.starts_with("MODE #s") && l.contains("-s"))) {
+                    if let Some(c) = v.m.chans.get("#s") {
+                        if !c.fs {
+                            out.push(finding("secret-lost", format!("#s is declared secret in the configuration and nobody removed +s, yet the server no longer holds it as secret (history {:?})", v.hist.iter().map(|a| a.render()).collect::<Vec<_>>())));
+                            return out;
+                        }
+                    }
+                }
                 let hidden = v.m.chans.get("#s").map_or(false, |c| c.fs && !c.members.contains_key(&obs_nick));
                 if !hidden {
                     return out;
@@ -276,9 +296,10 @@ pub fn plan(quick: bool) -> Plan {
     let mut parts = vec![];
     for kind in [Hidden::SecretChannel, Hidden::InvisibleUser] {
         for oj in [false, true] {
-            parts.push(Part::Bfs(Box::new(TwoWorld { kind, observer_joins: oj, full: !quick }), lim(d, 2_000_000, t)));
+            parts.push(Part::Bfs(Box::new(TwoWorld { kind, observer_joins: oj, full: !quick, pre: false }), lim(d, 2_000_000, t)));
         }
     }
+    parts.push(Part::Bfs(Box::new(TwoWorld { kind: Hidden::SecretChannel, observer_joins: false, full: !quick, pre: true }), lim(if quick { 5 } else { 7 }, 2_000_000, t)));
     // "every kind of outsider": a connection whose registration was refused or never finished is an
     // outsider of everything - the contended-registration part (ghost.rs) with a secret channel
     parts.push(Part::Bfs(Box::new(ghost(!quick)), lim(if quick { 6 } else { 7 }, 2_000_000, if quick { 20.0 } else { 600.0 })));
